@@ -282,7 +282,8 @@ int main(int argc, char **argv) {
           if (k > 1) os << ",";
           DIType *t = ta[k];
           bool isconst = false;
-          while (t && isa<DIDerivedType>(t) && cast<DIDerivedType>(t)->getTag() == dwarf::DW_TAG_typedef) t = cast<DIDerivedType>(t)->getBaseType();
+          while (t && isa<DIDerivedType>(t) && (cast<DIDerivedType>(t)->getTag() == dwarf::DW_TAG_typedef || cast<DIDerivedType>(t)->getTag() == dwarf::DW_TAG_restrict_type ||
+                 cast<DIDerivedType>(t)->getTag() == dwarf::DW_TAG_const_type || cast<DIDerivedType>(t)->getTag() == dwarf::DW_TAG_volatile_type)) t = cast<DIDerivedType>(t)->getBaseType();
           if (auto *pt = dyn_cast_or_null<DIDerivedType>(t)) {
             if (pt->getTag() == dwarf::DW_TAG_pointer_type) {
               DIType *b = pt->getBaseType();
